@@ -310,8 +310,8 @@ def native_vecu(model: dict) -> tuple[bool, str]:
 def native_replay(unit: str, obligation: str, model: dict) -> tuple[bool, str]:
     if unit.startswith("vecu/"):
         return native_vecu(model)
-    if unit.startswith("effects/"):
-        return False, "syntactic obligation (see the named call site)"
+    # an effect obligation has no input of its own: its native counterpart is the stand-in
+    # (same seed and arguments twice, and across processes with different PYTHONHASHSEED)
     r = standin("quick", 0)
     return r["n_bad"] > 0, "; ".join(r["violations"][:4]) or "stand-in holds"
 
